@@ -72,6 +72,10 @@ def mk_input(vecs, form):
         # in integer arrays: every other integral case is passed with an integer dtype
         # (a deterministic function of the case; RDMs objects keep the dtype they are given)
         a = a.astype(np.int64)
+        if a.min() >= 0 and a.max() <= 1 and int(a.sum()) % 4 == 0:
+            a = a.astype(bool)          # binary (categorical) RDMs held as booleans
+        elif a.min() >= 0 and a.max() <= 255 and int(a.sum()) % 4 == 2:
+            a = a.astype(np.uint8)      # small counts in a narrow unsigned type
     if form == 'rdms':
         return RDMs(a.copy())
     if form == 'array1d' and a.shape[0] == 1:
